@@ -143,6 +143,8 @@ def run(ctx):
                         if len(chosen) == 3:
                             break
                     roots = [r.choice([d, "./" + d]) for d in chosen] or ["."]
+                # a root spelled with a leading `~` is expanded to the home directory (documented): spell it `./~x`
+                roots = [("./" + x) if x.startswith("~") else x for x in roots]
                 mind = r.choice([None, None, 0, 1, 2, 3, maxlevel + 1])
                 maxd = r.choice([None, None, 0, 1, 2, 3, maxlevel, maxlevel + 2])
                 trav = r.choice(["", "bfs", "dfs", "dfs"])
